@@ -62,7 +62,7 @@ type FuncSpec struct {
 	NilRecv   bool     // the receiver may be nil (no implicit non-nil assumption)
 	Spawns    []string // parameters holding functions that run later: their precondition is checked at the call
 	AtCalls   []*AtCall // assertions over the caller's locals right before a call
-	Shrinks   bool      // the operation only removes entries from lock-protected ghost state (no lock needed for the invariant)
+	NeedsLock bool      // the operation adds to lock-protected ghost state: callers must hold a protecting lock
 	Preserves []*Clause // with `modifies heap`: whole storages that are nevertheless left alone
 }
 
@@ -194,7 +194,7 @@ var topKeywords = map[string]bool{
 var subKeywords = map[string]bool{
 	"requires": true, "ensures": true, "modifies": true, "loop": true, "protects": true,
 	"invariant": true, "assume": true, "inline": true, "maypanic": true, "nosafety": true,
-	"atcall": true, "preserves": true, "shrinks": true, "params": true, "results": true, "let": true, "letold": true, "forall": true, "note": true, "property": true,
+	"atcall": true, "preserves": true, "needslock": true, "params": true, "results": true, "let": true, "letold": true, "forall": true, "note": true, "property": true,
 	"selfcomp": true, "held": true, "transparent": true, "ghostset": true, "spawns": true, "nilrecv": true, "rely": true,
 }
 
@@ -719,8 +719,8 @@ func parseFuncSub(fs *FuncSpec, d rawDirective, path string) error {
 			}
 			fs.Preserves = append(fs.Preserves, cl)
 		}
-	case "shrinks":
-		fs.Shrinks = true
+	case "needslock":
+		fs.NeedsLock = true
 	case "nilrecv":
 		fs.NilRecv = true
 	case "rely":
